@@ -80,7 +80,9 @@ impl BitVec
                 bigint.get_bit(size - 1 - i));
         }
 
-        if index + size > self.len
+        // (a value of width zero writes no bit
+        // and does not extend the output)
+        if size > 0 && index + size > self.len
         {
             self.len = index + size;
         }
